@@ -2,9 +2,9 @@
 
 # model .vo files the extraction depends on (relative to coq/)
 MODEL_VO = ['gen/Consts.vo', 'gen/CrcTables.vo', 'model/Bytes.vo', 'model/Codec.vo', 'model/Order.vo', 'model/Crc.vo',
-            'model/Block.vo', 'model/Writer.vo', 'model/WriteLoop.vo', 'spec/Leb128.vo', 'spec/Parse.vo', 'model/Reader.vo']
+            'model/Block.vo', 'model/Writer.vo', 'model/WriteLoop.vo', 'spec/Leb128.vo', 'spec/Parse.vo', 'model/Reader.vo', 'model/Verify.vo']
 # OCaml modules of the driver, in link order
-OCAML_MODULES = ['common', 'gen', 'enc', 'c16', 'wr', 'c20', 'rd', 'c19', 'c17', 'main']
+OCAML_MODULES = ['common', 'gen', 'enc', 'c16', 'wr', 'c20', 'rd', 'c19', 'c17', 'c12', 'main']
 C_VARIANTS_SETUP = ('all',)
 EXTRA_BUILDS = []
 COQ_TIMEOUT = 3000
@@ -83,6 +83,13 @@ PROPS = {
         'assumptions': ['PARTIAL: T11_any_layout_partial (block iterator correct for any legal restart positions / sharing); decoding bytes into blocks and the index hand-over of C11_statement are validated by engine rd on encoder-made v1/v2 files',
                         '64-bit restart arrays (blocks above 4 GiB) are modelled (block_init arithmetic) but not executed'],
         'explanation': 'Files from an independent encoder with random legal layouts (format v1 and v2, arbitrary block boundaries, restart positions, non-maximal sharing, shortened separators, compression) are read by implementation and model: iteration, lookups, seek histories.',
+    },
+    'C12': {
+        'engines': [{'name': 'c12', 'timeout_quick': 600, 'timeout_thorough': 7200}, {'name': 'c17', 'timeout_quick': 600, 'timeout_thorough': 7200}],
+        'trusted_base': ['mtbl_verify built from /repo/src/mtbl_verify.c against the freshly built library; decompression oracle'],
+        'assumptions': ['damage is confined to one block\'s stored bytes or its 4-byte checksum field (the property\'s quantifier); a damaged length prefix or trailer is outside it',
+                        'PARTIAL: T12c_statement (bursts <= 32 bits, double flips) is stated, not proved; every such pattern generated by engine c12 is checked on the real mtbl_verify and a verifying reader'],
+        'explanation': 'T12b: the verifying reader stops on any field/CRC mismatch whichever operation loads the block; mtbl_verify says OK iff every field matches; T12d: every odd-weight error is detected (parity of the CRC-32C register). Real mtbl_verify and a verify_checksums reader (iteration, get, seek, get_prefix, get_range) on damaged data / last-data / index blocks.',
     },
     'C17': {
         'engines': [{'name': 'c17', 'timeout_quick': 600, 'timeout_thorough': 7200}],
